@@ -91,6 +91,10 @@ def judge(case, p, out):
     key["family"] = case["fam"]
     key["log"] = case.get("log", "CRITICAL")
     key["report_rcond"] = bool(case["cfg"].get("report_rcond", False))
+    # mechanism marker for the open finding "filter penalty overflows": the solver's
+    # penalty parameter is no longer finite when the solve ends
+    rho_now = getattr(out.solver, "rho", None) if out.solver is not None else None
+    key["rho_overflow"] = bool(rho_now is not None and not np.isfinite(rho_now))
     if out.construct_exc is not None:
         return viol, "construct:" + type(out.construct_exc).__name__
     if out.result is not None:
